@@ -148,6 +148,10 @@ impl OneshotSender {
 //@@ subst `ArcReceiverUnsettledMap` => `Option<OrderedMap<DeliveryTag, Option<DeliveryState>>>` rule=R4
 //@@ end
 pub enum LinkRelayError { UnattachedHandle, TransferFrameToSender }
+/// the point where a relay builds the flow it writes in answer to the peer (echo, drain answer), under ITS copy of the output handle
+pub fn relay_handle_live(Ghost(handle_now): Ghost<Option<OutputHandle>>, output_handle: &OutputHandle)
+    requires handle_now == Some(*output_handle),     // [C11.handle.relay-answers-under-a-live-handle] the flow a relay writes in answer to the peer goes out under the handle the link STILL holds: after the link's detach has been sent the number may already belong to another link of the session (slab re-use), which the peer then credits with an answer that is not its own
+{}
 impl SenderRelayFlowState {
     /// Producer::produce (unit PRODUCER): applies the receiver's flow to the sender's flow state and wakes a blocked send
     #[verifier::external_body]
@@ -221,9 +225,10 @@ impl LinkRelay<OutputHandle> {
 
 //@@ fn file=fe2o3-amqp/src/link/mod.rs impl=`impl LinkRelay<OutputHandle>` name=on_incoming_flow
 //@@ subst `{ use serde_amqp::Value; __E1 }` => `{ }` rule=R11
-//@@ subst `flow_state.produce((flow, output_handle.clone()))` => `flow_state.produce(flow, output_handle.clone())` rule=R9
-//@@ subst `flow_state.on_incoming_flow(flow, output_handle.clone())` => `flow_state.on_incoming_flow(flow, output_handle.clone(), Ghost(unconsumed))` rule=R9
+//@@ subst `flow_state.produce((flow, output_handle.clone()))` => `{ relay_handle_live(Ghost(handle_now), output_handle); flow_state.produce(flow, output_handle.clone()) }` rule=R9
+//@@ subst `flow_state.on_incoming_flow(flow, output_handle.clone())` => `{ relay_handle_live(Ghost(handle_now), output_handle); flow_state.on_incoming_flow(flow, output_handle.clone(), Ghost(unconsumed)) }` rule=R9
 //@@ entry
+        let ghost handle_now: Option<OutputHandle> = arbitrary();      // the output handle the LINK holds at this moment: None once its detach has been sent (the slab may have handed the number to another link since); the relay's own copy was taken at attach
         let ghost unconsumed: nat = arbitrary();      // deliveries this relay has already forwarded into the link's queue which the link has not counted yet (ReceiverLink::on_complete_transfer -> consume runs in the application's recv())
 //@@ spec
     ensures r is Ok,
